@@ -58,6 +58,9 @@ pub struct ReqLog {
 struct Shared {
     /// incremented by arm(); log entries of requests read under an older generation are dropped
     generation: u64,
+    /// the served file is `file` with `hole.1` zero bytes inserted at offset `hole.0` (offsets
+    /// beyond 2^32 without the memory)
+    hole: (u64, u64),
     file: Vec<u8>,
     script: Script,
     log: Vec<ReqLog>,
@@ -75,7 +78,7 @@ impl Server {
     pub fn start() -> Server {
         let listener = TcpListener::bind("127.0.0.1:0").expect("bind");
         let port = listener.local_addr().unwrap().port();
-        let shared = Arc::new(Mutex::new(Shared { generation: 0, file: vec![], script: Script::default(), log: vec![], reqno: 0, conns: 0 }));
+        let shared = Arc::new(Mutex::new(Shared { generation: 0, hole: (0, 0), file: vec![], script: Script::default(), log: vec![], reqno: 0, conns: 0 }));
         let stop = Arc::new(AtomicBool::new(false));
         let (sh, st) = (shared.clone(), stop.clone());
         std::thread::spawn(move || {
@@ -96,7 +99,16 @@ impl Server {
     }
     /// Install the file and the script for the next case and clear the log.
     pub fn arm(&self, file: &[u8], script: Script) {
+        self.arm_based(0, file, script)
+    }
+    /// Like `arm`, but the served file is `base` zero bytes followed by `file`.
+    pub fn arm_based(&self, base: u64, file: &[u8], script: Script) {
+        self.arm_hole(0, base, file, script)
+    }
+    /// Like `arm`, but `len` zero bytes are inserted into the served file at offset `at`.
+    pub fn arm_hole(&self, at: u64, len: u64, file: &[u8], script: Script) {
         let mut s = self.shared.lock().unwrap();
+        s.hole = (at, len);
         s.file = file.to_vec();
         s.script = script;
         s.log.clear();
@@ -173,7 +185,7 @@ fn handle(mut stream: TcpStream, shared: Arc<Mutex<Shared>>) {
             None => return,
         };
         let range = parse_range(&head);
-        let (file, fault, splits, keep_alive, gen, slot) = {
+        let (file, fault, splits, keep_alive, gen, slot, hole) = {
             let mut s = shared.lock().unwrap();
             let n = s.reqno;
             s.reqno += 1;
@@ -191,15 +203,18 @@ fn handle(mut stream: TcpStream, shared: Arc<Mutex<Shared>>) {
             // the request is logged when it is received; `sent` is filled in afterwards
             s.log.push(ReqLog { range, conn, sent: 0, fault: format!("{:?}", f) });
             let slot = s.log.len() - 1;
-            (s.file.clone(), f, s.script.splits.clone(), s.script.keep_alive, s.generation, slot)
+            (s.file.clone(), f, s.script.splits.clone(), s.script.keep_alive, s.generation, slot, s.hole)
         };
-        let flen = file.len() as u64;
+        let (hole_at, base) = hole;
+        let flen = base + file.len() as u64;
         let (status, mut body): (u16, Vec<u8>) = match range {
-            Some((a, b)) if a < flen => {
+            // (a zero prefix is never materialised beyond 1 MiB per response)
+            Some((a, b)) if a < flen && a <= b && b.min(flen - 1) - a < (1 << 20) + file.len() as u64 => {
                 let e = b.min(flen - 1);
-                (206, file[a as usize..=e as usize].to_vec())
+                (206, (a..=e).map(|p| if p < hole_at { file[p as usize] } else if p < hole_at + base { 0 } else { file[(p - base) as usize] }).collect())
             }
             Some(_) => (416, vec![]),
+            None if base > 0 => (416, vec![]),
             None => (200, file.clone()),
         };
         let mut status = status;
